@@ -58,7 +58,10 @@ _COV = re.compile(r"^<(\w+) line (\d+), col (\d+) .*?>: (\d+):(\d+)")
 
 
 def scratch(prefix: str = "vf") -> str:
-    base = os.environ.get("VF_SCRATCH") or tempfile.gettempdir()
+    """A private scratch directory (removed by the caller).  Kept under /verif/.cache/tmp rather than /tmp so
+    that unrelated clean-ups of /tmp cannot pull files from under a running TLC."""
+    base = os.environ.get("VF_SCRATCH") or os.path.join(VERIF, ".cache", "tmp")
+    os.makedirs(base, exist_ok=True)
     return tempfile.mkdtemp(prefix=prefix + "-", dir=base)
 
 
